@@ -16,6 +16,8 @@ type Ctx struct {
 	// Scale multiplies case counts (quick=1, thorough=20 by default).
 	Scale int
 	W     *Worker
+	// Wedges counts sessions in which the client stopped responding (worker timeouts)
+	Wedges int
 }
 
 type propFn func(*Ctx)
